@@ -727,6 +727,69 @@ def gen_near_tie(rng, cyclic=False, nmax=7):
     return renumber_random(rng, gd)
 
 
+def gen_reward_near(rng):
+    """Player 2 chooses at state 0 between a slowly converging sub-game A (exact conditioned reward R at its root, pruning on)
+    and an independent option worth exactly R - gap, gap a few convergence bands: the true choice is the cheaper option; a
+    solver that stops before its threshold is reached undervalues A and picks it instead."""
+    from . import analysis
+    for _ in range(60):
+        A = gen_slow(rng, nmax=8) if rng.random() < 0.6 else gen_cyc(rng, nmax=9)
+        if A is None:
+            continue
+        an = analysis.Analysis(A)
+        try:
+            if not (an.stopping and an.finals_absorbing) or 0 not in an.W or an.g.absorbing(0):
+                continue
+            c = an.exact_conditioned(True)
+            if not oracle.is_stopping(c)[0]:
+                continue
+            R = oracle.opt_total(c)["v"][0]
+            T = oracle.expected_steps_max(c)[0]
+        except oracle.OracleInconclusive:
+            continue
+        gap = rng.choice([5, 20, 100, 1000, 5000]) * F(1, 10 ** 6) * max(T, 1) + F(4, 10 ** 6)
+        w = R - gap
+        if w <= 0:
+            continue
+        nA = len(A["players"])
+        gA = an.g
+        fin = [f for f in A["final_states"] if gA.absorbing(f)][0]
+        players = [P2] + list(A["players"]) + [PR]
+        rewards = [F(0)] + list(A["rewards"]) + [w]
+        comp = nA + 1
+        tl = [None] + [[(a, t + 1) for a, t in tr] for tr in A["transition_list"]] + [[(F(1), fin + 1)]]
+        opts = [("a", 1), ("c", comp)]
+        rng.shuffle(opts)
+        tl[0] = opts
+        gd = {"rewards": rewards, "players": players, "transition_list": tl, "final_states": [f + 1 for f in A["final_states"]]}
+        return renumber_random(rng, gd)
+    return None
+
+
+def gen_aux_fast(rng):
+    """A slow rewarded cycle X -> Y -> X through a Player-2 state Y whose reachability-minimising action LEAVES the cycle while
+    its reward-minimising action STAYS in it: the two diagnostic quantities converge in a few sweeps, the expected rewards need
+    thousands.  A Player-2 chooser at state 0 compares the cycle (exact value r/(1-p)) with an option that is cheaper by 0.2-1 %."""
+    p = rng.choice([F(99, 100), F(199, 200), F(999, 1000)])
+    r = F(rng.randint(1, 5))
+    q = rng.choice([F(1, 10), F(1, 2), F(1, 4)])
+    R = r / (1 - p)
+    k = rng.choice([F(1, 10000), F(3, 10000), F(1, 1000), F(5, 1000)])
+    players = [P2, PR, P2, PR, PR, PR, PR]
+    # 0 chooser, 1 X, 2 Y, 3 L (leave), 4 competitor, 5 final, 6 sink
+    x_tr = [(p, 2), (1 - p, 5)]
+    y_tr = [("stay", 1), ("leave", 3)]
+    l_tr = [(q, 5), (1 - q, 6)]
+    c0 = [("a", 1), ("b", 4)]
+    for tr in (x_tr, y_tr, l_tr, c0):
+        if rng.random() < 0.5:
+            tr.reverse()
+    tl = [c0, x_tr, y_tr, l_tr, [(F(1), 5)], [(F(1), 5)], [(F(1), 6)]]
+    rewards = [F(rng.randint(0, 3)), r, F(0), 2 * R + rng.randint(1, 50), R * (1 - k), F(0), F(0)]
+    gd = {"rewards": rewards, "players": players, "transition_list": tl, "final_states": [5]}
+    return renumber_random(rng, gd)
+
+
 def gen_no_reach(rng):
     """No non-final state can reach a final state: the finals are isolated (or every state is final)."""
     gd = gen_acy(rng, nmax=8) if rng.random() < 0.5 else (gen_cyc(rng, nmax=8) or gen_acy(rng, nmax=8))
@@ -785,6 +848,10 @@ def gen_class(rng, cls, **kw):
         return gen_near_tie(rng, cyclic=False)
     if cls == "G-NEARC":
         return gen_near_tie(rng, cyclic=True)
+    if cls == "G-RNEAR":
+        return gen_reward_near(rng)
+    if cls == "G-AUXFAST":
+        return gen_aux_fast(rng)
     if cls == "G-NOREACH":
         return gen_no_reach(rng)
     if cls == "G-TINYB":
